@@ -274,11 +274,23 @@ Scoping ==
      inc |-> i, inc2 |-> j] :
       A \in ScopeRefs, B \in ScopeRefs, M \in {<<>>, <<Let("x", <<T("2")>>)>>, <<Let("y", <<T("m")>>)>>}, Z \in {<<>>, <<Let("y", <<T("z")>>)>>, <<B1(<<T("w")>>, "q", <<T("s")>>, <<>>)>>},
       i \in IncStmts("i"), j \in IncStmts("j") }
+(***************************************************************************)
+(* Lookup order build, rule, file for the reserved rule variables, *)
+(* enumerated: a variable of that name bound in the file (before the rule,  *)
+(* and possibly again at the end), in the rule or not, in the build block   *)
+(* or not, for a statement without a block and for one with a block.        *)
+(***************************************************************************)
+Shadow ==
+  { [main |-> <<Let(n, <<T("file")>>), Rule("r", <<Bd("command", <<T("c "), Var("out")>>)>> \o rb),
+                B1(<<T("a")>>, "r", <<T("s")>>, <<>>), B1(<<T("b")>>, "r", <<T("s")>>, bb)>> \o Z, inc |-> <<>>, inc2 |-> <<>>] :
+      n \in {"description", "depfile", "restat", "command"}, rb \in {<<>>, <<Bd("description", <<T("rule "), Var("out")>>)>>, <<Bd("depfile", <<Var("out"), T(".d")>>)>>},
+      bb \in {<<>>, <<Bd("x", <<T("1")>>)>>, <<Bd("description", <<T("build")>>)>>}, Z \in {<<>>, <<Let("description", <<T("late")>>)>>} }
 SC == IF "SC" \in DOMAIN IOEnv THEN atoi(IOEnv.SC) ELSE 200
 Programs ==
   UNION { Structured(r) : r \in 1..K }
   \cup UNION { Valid(r) : r \in 1..(2 * K) }
   \cup (IF SC >= Cardinality(Scoping) THEN Scoping ELSE RandomSubset(SC, Scoping))
+  \cup Shadow
   \cup UNION { { [main |-> m, inc |-> i, inc2 |-> <<>>] : m \in RandomSubset(K, [1..n -> Forms]), i \in RandomSubset(1, [1..2 -> IncForms]) } : n \in 3..5 }
 FilesOf(p) == [f \in {"build.ninja", "inc.ninja", "inc2.ninja"} |-> IF f = "build.ninja" THEN p.main ELSE IF f = "inc.ninja" THEN p.inc ELSE p.inc2]
 
